@@ -272,7 +272,17 @@ def _precedence_table():
             if a in live and b in live:
                 want = (SPEC_RANK[a] > SPEC_RANK[b]) - (SPEC_RANK[a] < SPEC_RANK[b])
                 got = (live[a] > live[b]) - (live[a] < live[b])
-                out.append(dict(name='T:precedence/%r-vs-%r' % (a, b), kind='P', ok=want == got,
+                ok = want == got
+                # a prefix sign and the postfix % meet only as "sign on the stack, % incoming", where the sign leaves the stack iff it does
+                # not bind looser: binding equally gives the same tree, so only "not looser" is demanded of that pair
+                if a in ('u-', 'u+') and b == '%':
+                    ok = got >= 0
+                if a == '%' and b in ('u-', 'u+'):
+                    ok = got <= 0
+                # two prefix signs never meet on the stack (a run of signs is one token): their relative rank is not observable
+                if a in ('u-', 'u+') and b in ('u-', 'u+'):
+                    ok = True
+                out.append(dict(name='T:precedence/%r-vs-%r' % (a, b), kind='P', ok=ok,
                                 detail='%r binds %s than %r in Operator._precedences, Excel: %s' % (
                                     a, {1: 'tighter', 0: 'equally', -1: 'looser'}[got], b, {1: 'tighter', 0: 'equally', -1: 'looser'}[want]),
                                 witness=_example(a, b)))
